@@ -177,6 +177,18 @@ def run_stats(draw, names, idx, n_total, batch):
     return moms
 
 
+class _Reseeded:
+    """Standard normals from a private generator re-seeded on every call; the seed moves on once per simulated batch (two engine calls per Merton batch)."""
+
+    def __init__(self):
+        self.calls = 0
+
+    def __call__(self, *size, dtype=None, device=None):
+        g = torch.Generator().manual_seed(1234 + self.calls // 2)
+        self.calls += 1
+        return torch.randn(*size, generator=g, dtype=dtype, device=device)
+
+
 # ---- model configurations ---------------------------------------------------------------------------------------
 def cfg_list():
     C = []
@@ -210,6 +222,8 @@ def cfg_list():
     # jumps of a fixed size (jump_std = 0, jump_mean != 0) are still jumps: the log-mean and log-variance carry lam t m and lam t m^2
     C.append(("merton", dict(lam=20.0, jm=-0.1, js=0.0, sigma=0.2, mu=0.05, dt=1 / 52, T=27, s0=1.5)))
     C.append(("merton", dict(lam=8.0, jm=0.15, js=0.0, sigma=0.1, mu=0.0, dt=1 / 12, T=13, s0=1.0)))
+    C.append(("merton", dict(lam=68.2, jm=0.0, js=0.02, sigma=0.2, mu=0.0, dt=1 / 250, T=51, s0=1.0, engine="reseeded")))
+    C.append(("merton", dict(lam=30.0, jm=-0.05, js=0.1, sigma=0.25, mu=0.05, dt=1 / 52, T=27, s0=1.5, engine="reseeded")))
     return C
 
 
@@ -244,10 +258,15 @@ def build(model, c, via, dtype):
         checks += [("x", "id", "mean", lambda t: c["s0"] + c["mu"] * t, None, "E[X_t] = x0 + mu t"), ("x", "id", "var", lambda t: c["sigma"] ** 2 * t, None, "Var[X_t] = sigma^2 t")]
     elif model == "merton":
         lam, m, s = c["lam"], c["jm"], c["js"]
+        ekw = {}
+        if c.get("engine") == "reseeded":
+            # a caller-supplied engine that restarts its stream on every call (common random numbers across bumped runs, as the library's own
+            # Sobol engine does): each call returns standard normals; batches differ through the seed
+            ekw = {"engine": _Reseeded()}
         if via == "generator":
-            draw = lambda b: {"x": ST.generate_merton_jump(b, T, init_state=(c["s0"],), mu=c["mu"], sigma=c["sigma"], jump_per_year=lam, jump_mean=m, jump_std=s, dt=dt, dtype=dtype)}  # noqa: E731
+            draw = lambda b: {"x": ST.generate_merton_jump(b, T, init_state=(c["s0"],), mu=c["mu"], sigma=c["sigma"], jump_per_year=lam, jump_mean=m, jump_std=s, dt=dt, dtype=dtype, **ekw)}  # noqa: E731
         else:
-            inst = MertonJumpStock(mu=c["mu"], sigma=c["sigma"], jump_per_year=lam, jump_mean=m, jump_std=s, dt=dt, dtype=dtype)
+            inst = MertonJumpStock(mu=c["mu"], sigma=c["sigma"], jump_per_year=lam, jump_mean=m, jump_std=s, dt=dt, dtype=dtype, **ekw)
             draw = lambda b: (inst.simulate(b, (T - 1) * dt, init_state=(c["s0"],)), {"x": inst.spot})[1]  # noqa: E731
         comp = lam * (math.exp(m + s * s / 2) - 1)
         checks += [("x", "id", "mean", lambda t: c["s0"] * np.exp(c["mu"] * t), None, "E[S_t] = S0 exp(mu t)"),
